@@ -147,7 +147,8 @@ class P:
                 depth -= 2
             elif depth == 0 and t[0] == 'p' and t[1] in (',', '=', ';', '{', '=>', '|'):
                 break
-            parts.append(str(t[1]) if t[0] != 'num' else str(t[1][0]))
+            if t[0] != 'life':
+                parts.append(str(t[1]) if t[0] != 'num' else str(t[1][0]))
             self.next()
         return ''.join(parts)
 
@@ -229,6 +230,12 @@ class P:
                 cond = self.cond()
                 body = self.block()
                 stmts.append(('while', cond, body))
+                continue
+            if self.at('id', 'break') and (self.atp(';', 1) or self.atp('}', 1)):
+                self.next()
+                if self.atp(';'):
+                    self.next()
+                stmts.append(('break',))
                 continue
             e = self.expr(stmt=True)
             if self.atp('=') or (self.at('p') and self.peek()[1] in ('+=', '-=', '*=', '/=', '|=', '&=', '^=', '<<=', '>>=')):
@@ -336,6 +343,25 @@ class P:
                 self.next()
                 e = ('try', e)
                 continue
+            if self.atp('['):
+                self.next()
+                a = b = None
+                if self.atp('..'):
+                    self.next()
+                    if not self.atp(']'):
+                        b = self.expr()
+                    e = ('index', e, ('range', None, b))
+                else:
+                    a = self.expr()
+                    if self.atp('..'):
+                        self.next()
+                        if not self.atp(']'):
+                            b = self.expr()
+                        e = ('index', e, ('range', a, b))
+                    else:
+                        e = ('index', e, a)
+                self.expect('p', ']')
+                continue
             return e
 
     def skip_balanced(self, open_, close):
@@ -381,6 +407,13 @@ class P:
             return ('paren', e)
         if self.atp('{'):
             return self.block()
+        if self.atp('<'):
+            self.next()
+            ty = self.ty()
+            self.expect('p', '>')
+            self.expect('p', '::')
+            name = self.expect('id')[1]
+            return ('qpath', ty, name)
         if self.atp('|') or self.atp('||'):
             # closure: parameters are skipped, the body is parsed (and never translated)
             if self.atp('||'):
@@ -556,9 +589,9 @@ def split_top(s, sep=','):
 
 
 def find_struct(src, name):
-    m = re.search(r'\bstruct\s+%s\s*\{' % name, src)
+    m = re.search(r'\bstruct\s+%s\s*(?:<[^>]*>)?\s*\{' % name, src)
     if not m:
-        mt = re.search(r'\bstruct\s+%s\s*\(((?:[^()]|\([^()]*\))*)\)\s*;' % name, src)
+        mt = re.search(r'\bstruct\s+%s\s*(?:<[^>]*>)?\s*\(((?:[^()]|\([^()]*\))*)\)\s*;' % name, src)
         if mt:
             return ('tuple', [re.sub(r'^pub(\([a-z]+\))?\s+', '', x) for x in split_top(mt.group(1))])
         raise Unsupported('struct %s not found' % name)
@@ -596,6 +629,21 @@ def find_enum(src, name):
 
 # ------------------------------------------------------------------------------------------------ translation
 INT_BITS = {'u8': 8, 'u16': 16, 'u32': 32, 'u64': 64, 'usize': 64}
+
+
+def is_bytes(ty):
+    """byte slices, arrays and vectors are all `list N`"""
+    return bool(re.match(r'^(\[u8(;.*)?\]|Vec<u8>)$', ty or ''))
+
+
+def opt_inner(ty):
+    """T of Option<T> / Result<T, E> (normalised type text), or None"""
+    ty = ty or ''
+    m = re.match(r'^(Option|Result)<(.*)>$', ty)
+    if not m:
+        return None
+    parts = split_top(m.group(2))
+    return parts[0] if parts else None
 N_TYPES = set(INT_BITS) | {'Duration', 'Instant', 'AttributeType'}
 
 
@@ -612,12 +660,16 @@ class World:
         self.const_vals = {}   # rust constant name -> python value (int, or float for f32)
 
     def gty(self, ty, self_ty=None):
-        ty = (ty or '').replace(' ', '')
-        ty = re.sub(r"^&(?:'\w+)?(?:mut)?", '', ty)
-        if ty == 'Self' and self_ty:
-            ty = self_ty
-        if ty in N_TYPES or ty in self.newtypes or ty in self.enums:
+        ty = self.norm(ty, self_ty)
+        if is_bytes(ty):
+            return 'list N'
+        if ty in self.newtypes:
+            return self.gty(self.newtypes[ty])
+        if ty in N_TYPES or ty in self.enums:
             return 'N'
+        if ty.startswith('(') and ty.endswith(')') and ty != '()':
+            parts = split_top(ty[1:-1])
+            return '(%s)' % ' * '.join(self.paren(self.gty(x, self_ty)) for x in parts)
         if ty == 'bool':
             return 'bool'
         if ty == '()':
@@ -637,10 +689,14 @@ class World:
         return '(%s)' % s if ' ' in s else s
 
     def norm(self, ty, self_ty=None):
-        ty = (ty or '').replace(' ', '')
-        ty = re.sub(r"^&(?:'\w+)?(?:mut)?", '', ty)
-        if ty == 'Self' and self_ty:
-            ty = self_ty
+        ty = re.sub(r"'\w+\s*", '', ty or '')          # lifetimes
+        ty = ty.replace(' ', '')
+        ty = re.sub(r"^&(?:mut)?", '', ty)
+        ty = re.sub(r'<>', '', ty)
+        ty = re.sub(r'^(\w+)<,*>$', r'\1', ty)          # Name<'a> after the lifetime was dropped
+        if self_ty:
+            ty = re.sub(r'\bSelf::Error\b', 'Error', ty)
+            ty = re.sub(r'\bSelf\b', self_ty, ty)
         return ty
 
 
@@ -659,6 +715,7 @@ class Ctx:
         self.lifted = []
         self.fn_gname = ''
         self.fn_rty = '_'
+        self.break_k = None
 
     def copy(self):
         c = Ctx(self.w, self.self_ty, self.ret_ty, self.recvs, self.fuel_used)
@@ -670,11 +727,23 @@ class Ctx:
         c.lifted = self.lifted
         c.fn_gname = self.fn_gname
         c.fn_rty = self.fn_rty
+        c.break_k = self.break_k
         return c
 
     def tmp(self, base='t'):
         self.fresh[0] += 1
         return '%s_%d' % (base, self.fresh[0])
+
+
+RESERVED = {'len', 'take', 'drop', 'nth', 'pad', 'bytes', 'zeros', 'be16', 'rd16', 'fuel', 'fix', 'match', 'with', 'end', 'let', 'in', 'fun',
+            'if', 'then', 'else', 'as', 'at', 'return', 'Some', 'None', 'true', 'false', 'list', 'option', 'bool', 'nat', 'N', 'Z', 'tt',
+            'unit', 'mul_f32', 'absdiffN', 'negb', 'andb', 'orb', 'fst', 'snd', 'app', 'rev', 'map', 'length', 'forall', 'exists',
+            'Type', 'Prop', 'Set', 'where', 'struct', 'using', 'for', 'cofix', 'res', 'Ok', 'Err', 'Panic', 'tlv', 'mod'}
+
+
+def gal_name(n):
+    """Gallina name of a Rust local: names the generated code itself uses are suffixed"""
+    return n + '_' if n in RESERVED else n
 
 
 def conj(conds):
@@ -711,6 +780,15 @@ def effect_call(e, cx):
             f = cx.w.funcs.get((ty, e[2]))
             if f and not f['plain']:
                 return f, key, e[3]
+    if e[0] == 'call' and e[1][0] == 'path':
+        p = e[1][1]
+        f = None
+        if len(p) == 2:
+            f = cx.w.funcs.get((cx.self_ty if p[0] == 'Self' else p[0], p[1]))
+        elif len(p) == 1:
+            f = cx.w.funcs.get((None, p[0]))
+        if f and not f['plain'] and f['recv'] is None:
+            return f, None, e[2]
     return None
 
 
@@ -817,7 +895,34 @@ def tr_expr(e, cx, expect=None):
         raise Unsupported('field .%s of %s' % (e[2], bty))
     if k == 'tuple':
         ts = [tr_expr(x, cx) for x in e[1]]
-        return '(%s)' % ', '.join(t[0] for t in ts), sum((t[1] for t in ts), []), None
+        tys = [w.norm(t[2], cx.self_ty) or '?' for t in ts]
+        return '(%s)' % ', '.join(t[0] for t in ts), sum((t[1] for t in ts), []), '(%s)' % ','.join(tys)
+    if k == 'index':
+        bt, bc, bty = tr_expr(e[1], cx)
+        if not is_bytes(w.norm(bty, cx.self_ty)):
+            raise Unsupported('indexing a value of type %s' % bty)
+        ix = e[2]
+        if ix[0] == 'range':
+            conds = list(bc)
+            at = ac = None
+            if ix[1] is not None:
+                at, ac, _ = tr_expr(ix[1], cx, 'usize')
+                conds += ac
+            if ix[2] is not None:
+                et, ec, _ = tr_expr(ix[2], cx, 'usize')
+                conds += ec
+                if at is not None:
+                    conds.append('%s <=? %s' % (atom(at), atom(et)))
+                conds.append('%s <=? len %s' % (atom(et), atom(bt)))
+                term = 'take %s %s' % (atom(et), atom(bt)) if at is None else 'take (%s - %s) (drop %s %s)' % (atom(et), atom(at), atom(at), atom(bt))
+            else:
+                if at is None:
+                    return bt, conds, '[u8]'
+                conds.append('%s <=? len %s' % (atom(at), atom(bt)))
+                term = 'drop %s %s' % (atom(at), atom(bt))
+            return term, conds, '[u8]'
+        it, ic, _ = tr_expr(ix, cx, 'usize')
+        return 'nth (N.to_nat %s) %s 0' % (atom(it), atom(bt)), bc + ic + ['%s <? len %s' % (atom(it), atom(bt))], 'u8'
     if k == 'struct':
         name = cx.self_ty if e[1] == ['Self'] else e[1][-1]
         if name not in w.records:
@@ -865,6 +970,9 @@ def tr_expr(e, cx, expect=None):
         nl = w.newtypes.get(nl, nl)
         bits = INT_BITS.get(nl)
         if op in ('==', '!='):
+            if is_bytes(nl) or is_bytes(w.norm(rty, cx.self_ty)):
+                t = 'list_N_eqb %s %s' % (atom(lt), atom(rt))
+                return (t if op == '==' else 'negb (%s)' % t), conds, 'bool'
             if nl == 'bool':
                 t = 'Bool.eqb %s %s' % (atom(lt), atom(rt))
             elif w.gty(nl, cx.self_ty) == 'N' if nl else True:
@@ -952,10 +1060,7 @@ def tr_expr(e, cx, expect=None):
         if f[0] == 'path':
             p = f[1]
             if p == ['Some'] or p == ['Ok']:
-                inner = None
-                m = re.match(r'(?:Option|Result)<(.+?)(?:,[^,]+)?>$', w.norm(expect, cx.self_ty) or '')
-                if m:
-                    inner = m.group(1)
+                inner = opt_inner(w.norm(expect, cx.self_ty))
                 t, c, ty = tr_expr(e[2][0], cx, inner)
                 return 'Some %s' % atom(t), c, 'Option<%s>' % (w.norm(ty, cx.self_ty) or '?')
             if p == ['Err']:
@@ -964,6 +1069,20 @@ def tr_expr(e, cx, expect=None):
                 return w.get_type[p[0]], [], 'AttributeType'
             if p == ['Duration', 'default'] or p == ['Duration', 'ZERO']:
                 return '0', [], 'Duration'
+            if p in (['BigEndian', 'read_u16'], ['BigEndian', 'read_u32']) and len(e[2]) == 1:
+                t, c, ty = tr_expr(e[2][0], cx)
+                nb = 2 if p[1] == 'read_u16' else 4
+                return 'be_read %d %s' % (nb, atom(t)), c + ['%d <=? len %s' % (nb, atom(t))], 'u16' if nb == 2 else 'u32'
+            if len(p) == 1 and (None, p[0]) in w.funcs:
+                fi = w.funcs[(None, p[0])]
+                if not fi['plain']:
+                    raise Unsupported('call of %s inside an expression' % p[0])
+                ats, conds = [], []
+                for a, (pn, pty) in zip(e[2], fi['params']):
+                    t, c, _ = tr_expr(a, cx, pty)
+                    ats.append(atom(t))
+                    conds += c
+                return '%s %s' % (fi['gname'], ' '.join(ats)), conds, fi['ret']
             if p in (['cmp', 'max'], ['cmp', 'min'], ['std', 'cmp', 'max'], ['std', 'cmp', 'min']) and len(e[2]) == 2:
                 at, ac, aty = tr_expr(e[2][0], cx, expect)
                 bt, bc, bty = tr_expr(e[2][1], cx, aty)
@@ -989,6 +1108,13 @@ def tr_expr(e, cx, expect=None):
             if len(p) == 2 and p[1] == 'from' and p[0] in INT_BITS:
                 t, c, ty2 = tr_expr(e[2][0], cx)
                 return t, c, p[0]
+        if f[0] == 'qpath' and f[2] == 'try_from' and len(e[2]) == 1:
+            # <&[u8; N]>::try_from(slice): Ok exactly when the slice has N bytes
+            m = re.match(r'^\[u8;(.+)\]$', w.norm(f[1]))
+            if m:
+                nt, nc, _ = tr_expr(P(lex(m.group(1))).expr(), cx, 'usize')
+                t, c, _ = tr_expr(e[2][0], cx)
+                return '(if len %s =? %s then Some %s else None)' % (atom(t), atom(nt), atom(t)), c + nc, 'Result<[u8],Error>'
         raise Unsupported('call %s' % (f,))
     if k == 'mcall':
         recv, name, args = e[1], e[2], e[3]
@@ -1004,12 +1130,26 @@ def tr_expr(e, cx, expect=None):
                 t, c, _ = tr_expr(inner[1], cx)
                 return t, c + ['%s <? %d' % (atom(t), 2 ** INT_BITS[to])], to
             t, c, ty = tr_expr(inner, cx, ('Option<%s>' % expect) if expect else None)
-            m = re.match(r'(?:Option|Result)<(.+?)(?:,[^,]+)?>$', w.norm(ty, cx.self_ty) or '')
-            if not m:
+            inner_ty = opt_inner(w.norm(ty, cx.self_ty))
+            if inner_ty is None:
                 raise Unsupported('unwrap on %s' % ty)
-            if w.gty(m.group(1), cx.self_ty) != 'N':
+            if w.gty(inner_ty, cx.self_ty) != 'N':
                 raise Unsupported('unwrap of a non-numeric option')
-            return 'opt_get %s' % atom(t), c + ['opt_is_some %s' % atom(t)], m.group(1)
+            return 'opt_get %s' % atom(t), c + ['opt_is_some %s' % atom(t)], inner_ty
+        if name in ('len', 'to_vec', 'is_empty', 'as_slice', 'as_ref') and not args:
+            t, c, ty = tr_expr(recv, cx)
+            if is_bytes(w.norm(ty, cx.self_ty)):
+                if name == 'len':
+                    return 'len %s' % atom(t), c, 'usize'
+                if name == 'is_empty':
+                    return '(len %s =? 0)' % atom(t), c, 'bool'
+                return t, c, '[u8]'
+        if name == 'try_into' and not args:
+            to = w.norm(opt_inner(w.norm(expect)) or '')
+            if to not in INT_BITS:
+                raise Unsupported('try_into() to an unknown type (%s)' % expect)
+            t, c, _ = tr_expr(recv, cx)
+            return '(if %s <? %d then Some %s else None)' % (atom(t), 2 ** INT_BITS[to], atom(t)), c, 'Result<%s,Error>' % to
         if name in ('into', 'clone', 'to_owned', 'as_u16', 'as_u8', 'as_u32', 'as_usize') and not args:
             key = place_key(recv)
             t, c, ty = tr_expr(recv, cx)
@@ -1106,7 +1246,7 @@ def tr_value_block(b, cx, expect):
         t, c, ty = tr_expr(s[4], cx2, s[3])
         if conds or c:
             raise Unsupported('partial operation inside a value block with lets')
-        g = s[1][1]
+        g = gal_name(s[1][1])
         cx2.vars[s[1][1]] = (g, s[3] or ty)
         lets.append('let %s := %s in ' % (g, t))
     t, c, ty = tr_expr(tail, cx2, expect)
@@ -1121,12 +1261,20 @@ def tr_pat(p, cx, sty):
     if p[0] == 'pwild':
         return '_', {}
     if p[0] == 'pid':
-        return p[1], {p[1]: (p[1], sty)}
+        return gal_name(p[1]), {p[1]: (gal_name(p[1]), sty)}
     if p[0] == 'pctor' and p[1] in (['Some'], ['Ok']) and len(p[2]) == 1:
-        m = re.match(r'(?:Option|Result)<(.+?)(?:,[^,]+)?>$', w.norm(sty, cx.self_ty) or '')
-        inner = m.group(1) if m else None
+        inner = opt_inner(w.norm(sty, cx.self_ty))
         ip, b = tr_pat(p[2][0], cx, inner)
-        return 'Some %s' % ip, b
+        return 'Some %s' % (ip if re.match(r'^\w+$', ip) else '(%s)' % ip), b
+    if p[0] == 'ptuple':
+        nty = w.norm(sty, cx.self_ty)
+        tys = split_top(nty[1:-1]) if nty.startswith('(') and nty.endswith(')') else []
+        parts, binds = [], {}
+        for i, q in enumerate(p[1]):
+            ip, b = tr_pat(q, cx, tys[i] if i < len(tys) else None)
+            parts.append(ip)
+            binds.update(b)
+        return '(%s)' % ', '.join(parts), binds
     if p[0] == 'ppath' and p[1] == ['None']:
         return 'None', {}
     if p[0] == 'pctor' and p[1] == ['Err']:
@@ -1150,7 +1298,7 @@ def tr_match_value(st, sc, sty, arms, cx, expect):
     """pure match with literal / enum / option patterns and pure arm values"""
     w = cx.w
     nty = w.norm(sty, cx.self_ty)
-    if re.match(r'(Option|Result)<', nty or ''):
+    if opt_inner(nty) is not None:
         parts, conds_arms, ty = [], [], None
         for pats, body in arms:
             for p in pats:
@@ -1227,12 +1375,12 @@ def bind_effect(call, cx, k):
         t, c, _ = tr_expr(a, cx, pty)
         ats.append(atom(t))
         conds += c
-    recv_g = cx.places[key][0] if key in cx.places else cx.vars[key][0]
+    recv_g = None if key is None else (cx.places[key][0] if key in cx.places else cx.vars[key][0])
     r = cx.tmp('r')
     fuel = ['fuel'] if fi.get('fuel') else []
     if fi.get('fuel'):
         cx.fuel_used[0] = True
-    callt = '%s %s' % (fi['gname'], ' '.join(fuel + [recv_g] + ats))
+    callt = '%s %s' % (fi['gname'], ' '.join(fuel + ([recv_g] if recv_g else []) + ats))
     cx.uses_panic[0] = True
     if fi['recv'] == 'mut':
         if fi['ret'] in ('()', None):
@@ -1246,6 +1394,144 @@ def bind_effect(call, cx, k):
         res = r
     body = k(cx, res, fi['ret'])
     return chk(conds, 'match %s with GOk %s => %s | GPanic => GPanic | GFuel => GFuel end' % (callt, pat, body), cx)
+
+
+def has_try(e):
+    if isinstance(e, tuple):
+        if e and e[0] == 'try':
+            return True
+        if e and e[0] == 'closure':
+            return False
+        return any(has_try(x) for x in e)
+    if isinstance(e, list):
+        return any(has_try(x) for x in e)
+    return False
+
+
+def nested_effect(e, cx, top=True):
+    """does e contain a call of a non-plain translated function below its root?"""
+    if isinstance(e, tuple):
+        if e and e[0] == 'closure':
+            return False
+        if not top and e and e[0] in ('call', 'mcall') and effect_call(e, cx):
+            return True
+        return any(nested_effect(x, cx, False) for x in e[1:])
+    if isinstance(e, list):
+        return any(nested_effect(x, cx, False) for x in e)
+    return False
+
+
+def needs_hoist(e, cx):
+    return e is not None and (has_try(e) or nested_effect(e, cx))
+
+
+def hoist(e, acc, cx, expect=None, top=True):
+    if not (has_try(e) or nested_effect(e, cx, top)):
+        return e
+    if not top and e[0] in ('call', 'mcall') and effect_call(e, cx):
+        inner = hoist(e, acc, cx, None, True)
+        v = cx.tmp('q')
+        acc.append((v, inner, 'eff'))
+        return ('path', [v])
+    return hoist1(e, acc, cx, expect)
+
+
+def hoist1(e, acc, cx, expect=None):
+    """replace every `inner?` sub-expression (left to right, innermost first) by a fresh variable;
+    acc collects (variable, inner expression, expected type of the variable)"""
+    k = e[0]
+    if k == 'try':
+        inner = hoistn(e[1], acc, cx)
+        v = cx.tmp('q')
+        acc.append((v, inner, expect))
+        return ('path', [v])
+    if k == 'paren':
+        return ('paren', hoistn(e[1], acc, cx, expect))
+    if k == 'un':
+        return ('un', e[1], hoistn(e[2], acc, cx, expect))
+    if k == 'cast':
+        return ('cast', hoistn(e[1], acc, cx), e[2])
+    if k == 'field':
+        return ('field', hoistn(e[1], acc, cx), e[2])
+    if k == 'bin':
+        if e[1] in ('&&', '||') and has_try(e[3]):
+            raise Unsupported('`?` under a short-circuit operator')
+        return ('bin', e[1], hoistn(e[2], acc, cx), hoistn(e[3], acc, cx))
+    if k == 'mcall':
+        r = hoistn(e[1], acc, cx)
+        return ('mcall', r, e[2], [hoistn(a, acc, cx) for a in e[3]])
+    if k == 'call':
+        args = list(e[2])
+        if e[1][0] == 'path' and e[1][1] == ['BigEndian', 'write_u16'] and len(args) == 2:
+            return ('call', e[1], [hoistn(args[0], acc, cx), hoistn(args[1], acc, cx, 'u16')])
+        if e[1][0] == 'path' and e[1][1] in (['Ok'], ['Some']) and len(args) == 1:
+            return ('call', e[1], [hoistn(args[0], acc, cx, opt_inner(cx.w.norm(expect, cx.self_ty)))])
+        return ('call', e[1], [hoistn(a, acc, cx) for a in args])
+    if k == 'index':
+        b = hoistn(e[1], acc, cx)
+        ix = e[2]
+        if ix[0] == 'range':
+            ix = ('range', None if ix[1] is None else hoistn(ix[1], acc, cx), None if ix[2] is None else hoistn(ix[2], acc, cx))
+        else:
+            ix = hoistn(ix, acc, cx)
+        return ('index', b, ix)
+    if k == 'tuple':
+        return ('tuple', [hoistn(x, acc, cx) for x in e[1]])
+    if k == 'struct':
+        return ('struct', e[1], [(n, hoistn(x, acc, cx)) for n, x in e[2]])
+    raise Unsupported('`?` inside %s' % k)
+
+
+
+
+def hoistn(e, acc, cx, expect=None):
+    return hoist(e, acc, cx, expect, False)
+
+
+def with_tries(e, cx, expect, k):
+    """translate the `?`s of e (each becomes: evaluate, on the error / None case leave the function with that case),
+    then continue with k(cx', e') where e' has no `?` left"""
+    acc = []
+    e2 = hoist(e, acc, cx, expect)
+
+    def go(i, cx_i):
+        if i == len(acc):
+            return k(cx_i, e2)
+        v, inner, exp = acc[i]
+        if exp == 'eff':
+            def bound_eff(cx2, res, ty):
+                cx3 = cx2.copy()
+                cx3.vars[v] = (v, ty)
+                return 'let %s := %s in\n  %s' % (v, res, go(i + 1, cx3))
+            return bind_effect(effect_call(inner, cx_i), cx_i, bound_eff)
+
+        def bound(cx2, term, ty):
+            cx3 = cx2.copy()
+            ity = opt_inner(cx3.w.norm(ty, cx3.self_ty)) or exp
+            cx3.vars[v] = (v, ity)
+            return 'match %s with\n  | Some %s => %s\n  | None => %s\n  end' % (term, v, go(i + 1, cx3), exit_term(cx2, 'None'))
+        call = effect_call(inner, cx_i)
+        if call:
+            return bind_effect(call, cx_i, bound)
+        t, c, ty = tr_expr(inner, cx_i, ('Option<%s>' % exp) if exp else None)
+        return chk(c, bound(cx_i, t, ty), cx_i)
+    return go(0, cx)
+
+
+def bind_pattern(pat, term, ty, cx):
+    """`let PAT = term`: (gallina let-prefix, context with the bound names)"""
+    cx2 = cx.copy()
+    if pat[0] == 'pid':
+        cx2.vars[pat[1]] = (gal_name(pat[1]), ty)
+        return 'let %s := %s in\n  ' % (gal_name(pat[1]), term), cx2
+    if pat[0] == 'pwild':
+        return '', cx2
+    if pat[0] == 'ptuple':
+        pt, binds = tr_pat(pat, cx, ty)
+        for rn, v in binds.items():
+            cx2.vars[rn] = v
+        return "let '%s := %s in\n  " % (pt, term), cx2
+    raise Unsupported('let pattern %s' % (pat,))
 
 
 def assign_place(cx, key, term, ty=None):
@@ -1269,11 +1555,26 @@ def tr_stmts(stmts, tail, cx, k):
             return bind_effect(call, cx, lambda cx2, res, ty: k(cx2, res))
         if tail[0] == 'macro':
             return k(cx, None)
+        if needs_hoist(tail, cx):
+            return with_tries(tail, cx, cx.ret_ty, lambda cx2, e2: tr_stmts([], e2, cx2, k))
         t, c, _ = tr_expr(tail, cx, cx.ret_ty)
         return chk(c, k(cx, t), cx)
     s, rest = stmts[0], stmts[1:]
     if s[0] == 'expr' and s[1][0] == 'macro':
         return tr_stmts(rest, tail, cx, k)
+    if s[0] == 'break':
+        if cx.break_k is None:
+            raise Unsupported('break outside a loop')
+        return cx.break_k(cx)
+    if s[0] in ('return', 'let', 'assign', 'expr') and needs_hoist(s[-1] if s[0] != 'assign' else s[3], cx) and not (s[0] == 'expr' and s[1][0] in ('if', 'match', 'block')):
+        # `?`: bind the fallible sub-expressions first, then translate the statement without them
+        if s[0] == 'return':
+            return with_tries(s[1], cx, cx.ret_ty, lambda cx2, e2: tr_stmts([('return', e2)] + rest, tail, cx2, k))
+        if s[0] == 'let':
+            return with_tries(s[4], cx, s[3], lambda cx2, e2: tr_stmts([('let', s[1], s[2], s[3], e2)] + rest, tail, cx2, k))
+        if s[0] == 'assign':
+            return with_tries(s[3], cx, None, lambda cx2, e2: tr_stmts([('assign', s[1], s[2], e2)] + rest, tail, cx2, k))
+        return with_tries(s[1], cx, None, lambda cx2, e2: tr_stmts([('expr', e2)] + rest, tail, cx2, k))
     if s[0] == 'return':
         if s[1] is None:
             return exit_term(cx, None)
@@ -1284,20 +1585,27 @@ def tr_stmts(stmts, tail, cx, k):
         return chk(c, exit_term(cx, t), cx)
     if s[0] == 'let':
         pat, mut, ty, e = s[1], s[2], s[3], s[4]
-        if pat[0] != 'pid':
+        if pat[0] not in ('pid', 'ptuple', 'pwild'):
             raise Unsupported('let pattern %s' % (pat,))
-        name = pat[1]
+        name = pat[1] if pat[0] == 'pid' else None
 
         def after(cx2, term, ety):
-            cx3 = cx2.copy()
-            cx3.vars[name] = (name, ty or ety)
-            if mut and name not in [m[0] for m in cx3.muts]:
-                cx3.muts.append((name, ty or ety))
-            return 'let %s := %s in\n  %s' % (name, term, tr_stmts(rest, tail, cx3, k))
+            if term is None:
+                term = 'tt'
+            if pat[0] == 'pid' and len(pat) == 2 and e[0] == 'path' and e[1] == [name] and not mut:
+                return tr_stmts(rest, tail, cx2, k)          # `let x = x?;` after hoisting
+            prefix, cx3 = bind_pattern(pat if pat[0] != 'pid' else ('pid', name), term, ty or ety, cx2)
+            if mut and name and gal_name(name) not in [m[0] for m in cx3.muts]:
+                cx3.muts.append((gal_name(name), ty or ety))
+            if mut and name:
+                cx3.muts = [(g, (ty or ety) if g == gal_name(name) else t0) for g, t0 in cx3.muts]
+            return prefix + tr_stmts(rest, tail, cx3, k)
         call = effect_call(e, cx)
         if call:
             return bind_effect(call, cx, after)
         t, c, ety = tr_expr(e, cx, ty)
+        if ety is None and e[0] == 'num':
+            ety = 'usize'
         return chk(c, after(cx, t, ety), cx)
     if s[0] == 'assign':
         key = place_key(s[1])
@@ -1320,6 +1628,27 @@ def tr_stmts(stmts, tail, cx, k):
         call = effect_call(e, cx)
         if call:
             return bind_effect(call, cx, lambda cx2, res, ty: tr_stmts(rest, tail, cx2, k))
+        if e[0] == 'call' and e[1][0] == 'path' and e[1][1] == ['BigEndian', 'write_u16'] and len(e[2]) == 2:
+            tgt = e[2][0]
+            while tgt[0] == 'paren':
+                tgt = tgt[1]
+            if tgt[0] == 'index' and tgt[2][0] == 'range' and tgt[2][1] is not None:
+                key = place_key(tgt[1])
+                if key is not None and (key in cx.vars or key in cx.places):
+                    g = assign_place(cx, key, None)
+                    _, rc, _ = tr_expr(tgt, cx)                       # the slice itself must be in range ...
+                    at, _, _ = tr_expr(tgt[2][1], cx, 'usize')
+                    lt = 'len %s - %s' % (g, atom(at)) if tgt[2][2] is None else '%s - %s' % (atom(tr_expr(tgt[2][2], cx, 'usize')[0]), atom(at))
+                    vt, vc, vty = tr_expr(e[2][1], cx, 'u16')
+                    conds = rc + vc + ['2 <=? %s' % lt]                 # ... and hold two bytes
+                    if cx.w.norm(vty, cx.self_ty) not in ('u16', 'u8'):
+                        conds.append('%s <? 65536' % atom(vt))
+                    return chk(conds, 'let %s := be_write16 %s %s %s in\n  %s' % (g, g, atom(at), atom(vt), tr_stmts(rest, tail, cx, k)), cx)
+        if e[0] == 'path':
+            return tr_stmts(rest, tail, cx, k)     # what is left of `f(..)?;` once the `?` is bound
+        if e[0] == 'call' or e[0] == 'mcall':
+            t, c, ty = tr_expr(e, cx)          # a pure call whose value is dropped: only its panic conditions matter
+            return chk(c, tr_stmts(rest, tail, cx, k), cx)
         raise Unsupported('expression statement %s' % (e[0],))
     if s[0] == 'while':
         return tr_while(s, rest, tail, cx, k)
@@ -1399,6 +1728,18 @@ def tr_control(e, cx, k):
     raise Unsupported('control %s' % e[0])
 
 
+def tr_control_iflet(pat, scrut, body, cx, k_body, k_else):
+    """match scrut with pat => body ; k_body | _ => k_else"""
+    st, sc, sty = tr_expr(scrut, cx)
+    pt, binds = tr_pat(pat, cx, sty)
+    cxa = cx.copy()
+    for rn, v in binds.items():
+        cxa.vars[rn] = v
+    a = tr_stmts(body[1], body[2], cxa, k_body)
+    b = k_else(cx.copy())
+    return chk(sc, 'match %s with\n  | %s => %s\n  | _ => %s\n  end' % (st, pt, a, b), cx)
+
+
 def tr_while(s, rest, tail, cx, k):
     cond, body = s[1], s[2]
     cx.fuel_used[0] = True
@@ -1406,14 +1747,23 @@ def tr_while(s, rest, tail, cx, k):
     state = [(g, ty) for (g, ty) in cx.muts]
     names = [g for g, _ in state]
     loop = cx.tmp('loop')
-    binders = ' '.join('(%s : %s)' % (g, cx.w.gty(ty, cx.self_ty) if ty else '_') for g, ty in state)
+    binders = ' '.join('(%s : %s)' % (g, safe_gty(cx, ty)) for g, ty in state)
 
     def again(cx2, v):
         return '%s fuel\' %s' % (loop, ' '.join(names))
 
     def after(cx2, v=None):
-        return tr_stmts(rest, tail, cx2, k)
-    if cond[0] == 'letc':
+        cx4 = cx2.copy()
+        cx4.break_k = cx.break_k
+        return tr_stmts(rest, tail, cx4, k)
+    cx = cx.copy()
+    outer_break = cx.break_k
+    cx.break_k = lambda cxb: after(cxb)
+    if cond[0] == 'letc' and cond[2][0] == 'try':
+        # `while let P = E? { .. }`: E is evaluated each time round; its error case leaves the function
+        pat = cond[1]
+        inner = with_tries(cond[2], cx, None, lambda cx2, e2: tr_control_iflet(pat, e2, body, cx2, again, after))
+    elif cond[0] == 'letc':
         pat, se = cond[1], cond[2]
 
         def with_scrut(cx2, st, sty):
@@ -1453,6 +1803,10 @@ def safe_gty(cx, ty):
 def translate_fn(world, gname, src, fn, self_ty=None, recv_record=None):
     """returns (gallina definition text, funcinfo)"""
     params, ret, body = find_fn(src, fn)
+    # associated types of the impl block (`type Item = RawAttribute<'a>;`): Self::Item etc. in the signature
+    for am in re.finditer(r'\btype\s+(\w+)\s*=\s*([^;]+);', src):
+        ret = re.sub(r'\bSelf::%s\b' % am.group(1), am.group(2).strip(), ret)
+        params = re.sub(r'\bSelf::%s\b' % am.group(1), am.group(2).strip(), params)
     ps = split_top(params)
     recv = None
     plist = []
@@ -1476,7 +1830,7 @@ def translate_fn(world, gname, src, fn, self_ty=None, recv_record=None):
                 if recv == 'mut':
                     cx.recvs.append(('self', sty))
             else:
-                binders.append('(self : N)')
+                binders.append('(self : %s)' % world.paren(world.gty(sty)))
                 cx.vars['self'] = ('self', sty)
             continue
         m = re.match(r'(?:mut\s+)?(\w+)\s*:\s*(.+)$', p, re.S)
@@ -1494,8 +1848,8 @@ def translate_fn(world, gname, src, fn, self_ty=None, recv_record=None):
             cx.recvs.append((name, nty))
             recv = recv or 'mutparam'
         else:
-            binders.append('(%s : %s)' % (name, world.gty(ty, self_ty)))
-            cx.vars[name] = (name, nty)
+            binders.append('(%s : %s)' % (gal_name(name), world.gty(ty, self_ty)))
+            cx.vars[name] = (gal_name(name), nty)
         plist.append((name, nty))
     ast = P(lex(body)).block()
     ret_n = world.norm(ret, self_ty)
@@ -1550,7 +1904,7 @@ def main():
     w = World()
     out = ['(* GENERATED by tools/rs2v.py from the source of /repo at check time: do not edit. *)',
            'From Coq Require Import List NArith Bool.', 'Import ListNotations.',
-           'From Coq Require Import ZArith.', 'From Rustun Require Import Base.GRes Generated.Constants Agent.F32.', 'Open Scope N_scope.', 'Open Scope bool_scope.', '']
+           'From Coq Require Import ZArith.', 'From Rustun Require Import Base.GRes Base.Tlv Generated.Constants Agent.F32.', 'Open Scope N_scope.', 'Open Scope bool_scope.', '']
     failures = []
     attr_type_constants(w)
 
@@ -1601,8 +1955,8 @@ def main():
     def emit_newtype(rel, name):
         try:
             kind, fs = find_struct(strip_comments(read(rel)), name)
-            if kind != 'tuple' or len(fs) != 1 or w.norm(fs[0]) not in INT_BITS:
-                raise Unsupported('%s is not an integer newtype' % name)
+            if kind != 'tuple' or len(fs) != 1 or not (w.norm(fs[0]) in INT_BITS or is_bytes(w.norm(fs[0]))):
+                raise Unsupported('%s is not an integer / byte-slice newtype' % name)
             w.newtypes[name] = w.norm(fs[0])
         except Unsupported as ex:
             failures.append('newtype %s: %s' % (name, ex))
@@ -1662,6 +2016,26 @@ def main():
     emit_record(tmo, 'RtoManager')
     emit_fn('gen_RtoManager_new', tmo, 'new', 'RtoManager', r'impl\s+RtoManager')
     emit_fn('gen_RtoManager_next_rto', tmo, 'next_rto', 'RtoManager', r'impl\s+RtoManager')
+
+    # ---- stun-rs/src/raw.rs : header parse, TLV iteration, the text a MAC / CRC covers (C03, C04, C09, C10, C18)
+    raw = 'stun-rs/src/raw.rs'
+    emit_fn('gen_check_buffer_boundaries', 'stun-rs/src/common.rs', 'check_buffer_boundaries', key=(None, 'check_buffer_boundaries'))
+    emit_consts('stun-rs/src/types.rs')
+    emit_consts(raw)
+    w.consts['MAGIC_COOKIE'] = ('(be32_bytes gen_MAGIC_COOKIE)', '[u8]')      # compared with the four cookie bytes of the header
+    emit_record(raw, 'MessageHeader')
+    emit_fn('gen_MessageHeader_decode', raw, 'decode', 'MessageHeader', r"impl<'a>\s+Decode<'a>\s+for\s+MessageHeader<'a>")
+    emit_record(raw, 'RawMessage')
+    emit_fn('gen_RawMessage_decode', raw, 'decode', 'RawMessage', r"impl<'a>\s+Decode<'a>\s+for\s+RawMessage<'a>")
+    emit_record(raw, 'RawAttribute')
+    emit_fn('gen_RawAttribute_decode', raw, 'decode', 'RawAttribute', r"impl<'a>\s+Decode<'a>\s+for\s+RawAttribute<'a>")
+    emit_newtype(raw, 'RawAttributes')
+    emit_fn('gen_RawAttributes_from', raw, 'from', 'RawAttributes', r"impl<'a>\s+From<&'a\s*\[u8\]>\s+for\s+RawAttributes<'a>")
+    emit_record(raw, 'RawAttributesIter')
+    emit_fn('gen_RawAttributesIter_pos', raw, 'pos', 'RawAttributesIter', r"impl\s+RawAttributesIter<'_>")
+    emit_fn('gen_RawAttributesIter_next', raw, 'next', 'RawAttributesIter', r"impl<'a>\s+FallibleIterator\s+for\s+RawAttributesIter<'a>")
+    emit_fn('gen_RawAttributes_into_fallible_iter', raw, 'into_fallible_iter', 'RawAttributes', r"impl<'a>\s+IntoFallibleIterator\s+for\s+RawAttributes<'a>")
+    emit_fn('gen_get_input_text', raw, 'get_input_text', key=(None, 'get_input_text'))
 
     # ---- stun-agent/src/rtt.rs : the RTO estimator (C15); Duration::mul_f32 is Agent/F32.mul_f32 (binary32, round to nearest even)
     rtt = 'stun-agent/src/rtt.rs'
